@@ -151,7 +151,18 @@ func workerRules(c *Ctx) {
 			// wg.Wait on the taken group, only on the non-nil side
 			ws := P.CallsTo(q.fn, "(*sync.WaitGroup).Wait")
 			if q.need(ws, "PATH", "wg.Wait()") {
-				okw := q.onlyViaEdge(ws[0], wIfs[0], 1-wNil[0]) && an.IsLoadOfField(callArg(ws[0], 0), "Worker.wg")
+				onGroup := an.IsLoadOfField(callArg(ws[0], 0), "Worker.wg")
+				if !onGroup {
+					// through a join: the values that can arrive here, given the branches that dominate the call
+					srcs := P.SourcesAt(callArg(ws[0], 0), ws[0])
+					onGroup = len(srcs) > 0
+					for _, sv := range srcs {
+						if !an.IsLoadOfField(sv, "Worker.wg") {
+							onGroup = false
+						}
+					}
+				}
+				okw := q.onlyViaEdge(ws[0], wIfs[0], 1-wNil[0]) && onGroup
 				q.add("PATH", "the watcher waits for the holders it took", okw, "wg.Wait() on the loaded group, on the non-nil side", ws[0])
 				q.add("WL", "the watcher re-looks after every wait", P.InCycle(ws[0]), "Wait lies in the loop", ws[0])
 			}
